@@ -1507,8 +1507,21 @@ func (r *Raft) appendEntries(rpc RPC, a *AppendEntriesRequest) {
 		lastIdx, lastTerm := r.getLastEntry()
 
 		var prevLogTerm uint64
-		if a.PrevLogEntry == lastIdx {
+		if snapIdx, snapTerm := r.getLastSnapshot(); a.PrevLogEntry == snapIdx {
+			// The previous entry is the last one covered by our snapshot. It
+			// may already have been compacted away, and a log entry that is
+			// still there at that index may be a stale one: the snapshot
+			// decides, mirror setPreviousLog.
+			prevLogTerm = snapTerm
+		} else if a.PrevLogEntry == lastIdx {
 			prevLogTerm = lastTerm
+		} else if a.PrevLogEntry < snapIdx && a.PrevLogTerm <= snapTerm {
+			// The previous entry lies inside our snapshot. What a snapshot
+			// covers is committed, so it is identical to the entry the leader
+			// holds at that index. (A term above the snapshot's cannot occur
+			// inside it: then the snapshot is not part of the leader's
+			// history and the lookup below rejects the request.)
+			prevLogTerm = a.PrevLogTerm
 		} else {
 			var prevLog Log
 			if err := r.logs.GetLog(a.PrevLogEntry, &prevLog); err != nil {
@@ -1537,8 +1550,20 @@ func (r *Raft) appendEntries(rpc RPC, a *AppendEntriesRequest) {
 
 		// Delete any conflicting entries, skip any duplicates
 		lastLogIdx, _ := r.getLastLog()
+		lastSnapIdx, lastSnapTerm := r.getLastSnapshot()
 		var newEntries []*Log
 		for i, entry := range a.Entries {
+			if entry.Index <= lastSnapIdx {
+				// Already covered by our snapshot, and possibly compacted away.
+				if entry.Term > lastSnapTerm || (entry.Index == lastSnapIdx && entry.Term != lastSnapTerm) {
+					// ... unless the snapshot does not belong to the leader's
+					// history (a user restore that never got replicated).
+					r.logger.Warn("snapshot conflicts with the leader's log",
+						"index", entry.Index, "ours", lastSnapTerm, "remote", entry.Term)
+					return
+				}
+				continue
+			}
 			if entry.Index > lastLogIdx {
 				newEntries = a.Entries[i:]
 				break
@@ -1843,6 +1868,26 @@ func (r *Raft) requestPreVote(rpc RPC, req *RequestPreVoteRequest) {
 	resp.Granted = true
 }
 
+// holdsSnapshotPosition reports whether our own snapshot and log are consistent
+// with a snapshot that ends at the given entry, which lies at or below our
+// applied index.
+func (r *Raft) holdsSnapshotPosition(index, term uint64) bool {
+	snapIdx, snapTerm := r.getLastSnapshot()
+	switch {
+	case index == snapIdx:
+		return term == snapTerm
+	case index < snapIdx:
+		// Inside our snapshot; a later term than the snapshot's cannot occur
+		// there in one history.
+		return term <= snapTerm
+	}
+	var entry Log
+	if err := r.logs.GetLog(index, &entry); err != nil {
+		return false
+	}
+	return entry.Term == term
+}
+
 // installSnapshot is invoked when we get a InstallSnapshot RPC call.
 // We must be in the follower state for this, since it means we are
 // too far behind a leader for log replay. This must only be called
@@ -1904,6 +1949,27 @@ func (r *Raft) installSnapshot(rpc RPC, req *InstallSnapshotRequest) {
 		}
 		reqConfigurationIndex = req.LastLogIndex
 	}
+
+	// A snapshot that does not reach past what we have already applied carries
+	// nothing new: everything up to lastApplied is committed and therefore
+	// identical to the leader's history. Acknowledge it without rolling the
+	// FSM and the log back.
+	if lastApplied := r.getLastApplied(); req.LastLogIndex <= lastApplied {
+		if r.holdsSnapshotPosition(req.LastLogIndex, req.LastLogTerm) {
+			r.logger.Info("ignoring installSnapshot request that is not ahead of applied state",
+				"snapshot-index", req.LastLogIndex, "applied-index", lastApplied)
+			resp.Success = true
+		} else {
+			// What we applied there is not what the leader holds (a user
+			// restore that never got replicated): neither acknowledge the
+			// snapshot nor roll back. The leader backs off and retries.
+			r.logger.Warn("rejecting installSnapshot request that conflicts with applied state",
+				"snapshot-index", req.LastLogIndex, "snapshot-term", req.LastLogTerm, "applied-index", lastApplied)
+		}
+		r.setLastContact()
+		return
+	}
+
 	version := getSnapshotVersion(r.protocolVersion)
 	sink, err := r.snapshots.Create(version, req.LastLogIndex, req.LastLogTerm,
 		reqConfiguration, reqConfigurationIndex, r.trans)
@@ -1979,6 +2045,9 @@ func (r *Raft) installSnapshot(rpc RPC, req *InstallSnapshotRequest) {
 	if mlogs, ok := r.logs.(MonotonicLogStore); ok && mlogs.IsMonotonic() {
 		if err := r.removeOldLogs(); err != nil {
 			r.logger.Error("failed to reset logs", "error", err)
+		} else {
+			// The log is empty now, the snapshot is our last entry.
+			r.setLastLog(0, 0)
 		}
 	} else if err := r.compactLogs(req.LastLogIndex); err != nil {
 		r.logger.Error("failed to compact logs", "error", err)
